@@ -131,6 +131,8 @@ pub struct World {
     pub loaded_mode: bool,
     pub graph: Option<(Graph, Option<(u64, u8)>)>,
     pub dumped: bool,
+    /// the durable state was written by hand (`g`/`gn`), not by the index's own flushes
+    pub explicit: bool,
 }
 
 pub fn flush_record(rt: &Runtime, index: &HnswIndex, now: u64) -> Result<Vec<W>, String> {
@@ -168,15 +170,78 @@ pub fn load(rt: &Runtime, d: &Durable) -> Result<HnswIndex, String> {
         .map_err(|e| format!("{e:?}"))
 }
 
-fn probe_meta(rt: &Runtime, index: &HnswIndex) -> Option<Vec<u8>> {
+/// polls a future that cannot suspend (the probes' callbacks are ready futures); usable inside a
+/// flush callback, where the runtime is already blocked on the enclosing flush
+pub fn poll_now<F: std::future::Future>(f: F) -> F::Output {
+    let mut f = std::pin::pin!(f);
+    let mut cx = std::task::Context::from_waker(std::task::Waker::noop());
+    match f.as_mut().poll(&mut cx) {
+        std::task::Poll::Ready(v) => v,
+        std::task::Poll::Pending => panic!("harness: a probe future suspended"),
+    }
+}
+
+pub fn probe_meta(_rt: &Runtime, index: &HnswIndex) -> Option<Vec<u8>> {
     let cap: Rc<RefCell<Option<Vec<u8>>>> = Rc::new(RefCell::new(None));
     let c2 = cap.clone();
     // the callback refuses, so nothing is committed: the call has no effect on the index
-    let _ = rt.block_on(index.store_metadata_with(0, async move |buf: &[u8]| {
+    let _ = poll_now(index.store_metadata_with(0, async move |buf: &[u8]| {
         *c2.borrow_mut() = Some(buf.to_vec());
         Err::<(), BoxError>("probe".into())
     }));
     cap.take()
+}
+
+/// every node the index holds among `cand` ∪ its own id set, through the public API
+pub fn extract_graph(index: &HnswIndex, cand: &BTreeSet<u64>) -> Graph {
+    let mut cand = cand.clone();
+    cand.extend(index.node_ids());
+    let mut g = Graph::new();
+    for id in cand {
+        if let Ok(n) = index.get_node_with(id, |n| GNode { layer: n.layer, vec: n.vector.clone(), nbrs: n.neighbors.iter().map(|l| l.iter().map(|(i, _)| *i).collect()).collect() }) {
+            g.insert(id, n);
+        }
+    }
+    g
+}
+
+/// entry point of a live index: from the metadata blob it serialises itself, else from `fallback`
+pub fn entry_of(index: &HnswIndex, fallback: &Option<Vec<u8>>) -> Option<(u64, u8)> {
+    let cap: Rc<RefCell<Option<Vec<u8>>>> = Rc::new(RefCell::new(None));
+    let c2 = cap.clone();
+    let _ = poll_now(index.store_metadata_with(0, async move |buf: &[u8]| {
+        *c2.borrow_mut() = Some(buf.to_vec());
+        Err::<(), BoxError>("probe".into())
+    }));
+    let bytes = cap.take().or_else(|| fallback.clone())?;
+    let mb: MetaBlob = cbor2::from_reader(&bytes[..]).ok()?;
+    let ml = index.metadata().config.max_layers;
+    Some((mb.entry_point.0, mb.entry_point.1.min(ml.saturating_sub(1))))
+}
+
+/// the index in the driver's `<state>` syntax, from the pieces
+pub fn state_string(index: &HnswIndex, g: &Graph, e: Option<(u64, u8)>, dirty: &[u64], with_lists: bool) -> String {
+    let e = e.unwrap_or((u64::MAX, 0));
+    let st = index.stats();
+    let mut ids = index.node_ids();
+    ids.sort();
+    let nodes = if g.is_empty() {
+        "-".to_string()
+    } else {
+        g.iter().map(|(i, n)| if with_lists { format!("{i}:{}:{}", n.layer, lists_str(&n.nbrs)) } else { format!("{i}:{}", n.layer) }).collect::<Vec<_>>().join("|")
+    };
+    format!(
+        "e={},{} ml={} v={} pending={} ids={} rm={} dirty={} nodes={}",
+        e.0,
+        e.1,
+        st.max_layer,
+        st.version,
+        index.has_pending_metadata_flush() as u8,
+        csv(&ids),
+        csv(&index.removed_node_ids()),
+        csv(dirty),
+        nodes
+    )
 }
 
 impl World {
@@ -194,6 +259,7 @@ impl World {
             loaded_mode: false,
             graph: None,
             dumped: false,
+            explicit: false,
         };
         // as `anda_db::index::Hnsw::new`: the empty index is flushed at creation
         w.flush_complete(rt)?;
@@ -214,6 +280,7 @@ impl World {
             loaded_mode: true,
             graph: None,
             dumped: false,
+            explicit: true,
         }
     }
 
@@ -253,14 +320,8 @@ impl World {
             return g.clone();
         }
         let mut cand: BTreeSet<u64> = self.universe.clone();
-        cand.extend(self.index.node_ids());
         cand.extend(self.live.keys().copied());
-        let mut g = Graph::new();
-        for id in cand {
-            if let Ok(n) = self.index.get_node_with(id, |n| GNode { layer: n.layer, vec: n.vector.clone(), nbrs: n.neighbors.iter().map(|l| l.iter().map(|(i, _)| *i).collect()).collect() }) {
-                g.insert(id, n);
-            }
-        }
+        let g = extract_graph(&self.index, &cand);
         let e = self.entry(rt);
         self.graph = Some((g.clone(), e));
         (g, e)
@@ -325,6 +386,7 @@ impl GBuilder {
 }
 
 pub fn node_blob(id: u64, layer: u8, vec: Vec<bf16>, lists: &[Vec<u64>]) -> Vec<u8> {
+    // `id` is the id stored INSIDE the blob (the object key is chosen by the caller)
     let neighbors: Vec<SmallVec<[(u64, bf16); 64]>> = lists.iter().map(|l| l.iter().map(|i| (*i, bf16::from_f32(0.0))).collect()).collect();
     serialize_node(&HnswNode { id, layer, vector: vec, neighbors, version: 1 })
 }
@@ -344,22 +406,22 @@ fn parse_csv(s: &str) -> Option<Vec<u64>> {
 // one case
 // ------------------------------------------------------------------------------------------------
 
-struct Ctx<'a> {
-    rt: &'a Runtime,
-    model: &'a mut Option<ModelProc>,
-    rep: &'a mut Report,
-    report: bool,
-    ops: &'a [String],
-    upto: usize,
-    out: Outcome,
-    nontrivial: bool,
+pub(crate) struct Ctx<'a> {
+    pub rt: &'a Runtime,
+    pub model: &'a mut Option<ModelProc>,
+    pub rep: &'a mut Report,
+    pub report: bool,
+    pub ops: &'a [String],
+    pub upto: usize,
+    pub out: Outcome,
+    pub nontrivial: bool,
 }
 
 impl Ctx<'_> {
     fn prefix(&self) -> Vec<String> {
         self.ops[..=self.upto.min(self.ops.len() - 1)].to_vec()
     }
-    fn oracle_fail(&mut self, key: &str, what: &str, expected: &str, observed: &str, graph_case: Option<Vec<String>>) {
+    pub fn oracle_fail(&mut self, key: &str, what: &str, expected: &str, observed: &str, graph_case: Option<Vec<String>>) {
         if self.report {
             let ops = self.prefix();
             self.rep.oracle_failure(key, what, &ops, expected, observed);
@@ -368,7 +430,7 @@ impl Ctx<'_> {
             self.out.first_failure = Some(Failure { kind: format!("oracle:{key}"), is_oracle: true, graph_case });
         }
     }
-    fn disagree(&mut self, what: &str, model: &str, imp: &str, graph_case: Option<Vec<String>>) {
+    pub fn disagree(&mut self, what: &str, model: &str, imp: &str, graph_case: Option<Vec<String>>) {
         if self.report {
             let ops = self.prefix();
             self.rep.disagreement(what, &ops, model, imp);
@@ -394,6 +456,11 @@ pub fn run_case(rt: &Runtime, ops: &[String], model: &mut Option<ModelProc>, rep
 }
 
 fn run_case_inner(cx: &mut Ctx) {
+    if cx.ops.first().is_some_and(|l| l.starts_with("wcfg ")) {
+        #[cfg(feature = "wrapper")]
+        crate::wrapper::run(cx);
+        return;
+    }
     let mut world: Option<World> = None;
     let mut gb: Option<GBuilder> = None;
     for (i, op) in cx.ops.iter().enumerate() {
@@ -426,11 +493,19 @@ fn run_case_inner(cx: &mut Ctx) {
             }
             "gn" => {
                 let Some(b) = gb.as_mut() else { continue };
-                if t.len() != 5 {
+                if t.len() < 5 {
                     continue;
                 }
-                let (Ok(id), Ok(layer), Some(v), Some(lists)) = (t[1].parse::<u64>(), t[2].parse::<u8>(), parse_bf16(t[3]), parse_lists(t[4])) else { continue };
-                b.blobs.insert(id, node_blob(id, layer, v, &lists));
+                let (Ok(id), Ok(layer), Some(mut v), Some(lists)) = (t[1].parse::<u64>(), t[2].parse::<u8>(), parse_bf16(t[3]), parse_lists(t[4])) else { continue };
+                let mut inner = id;
+                for f in &t[5..] {
+                    if let Some(x) = f.strip_prefix("bid=") {
+                        inner = x.parse().unwrap_or(id);
+                    } else if *f == "nan" && !v.is_empty() {
+                        v[0] = bf16::NAN;
+                    }
+                }
+                b.blobs.insert(id, node_blob(inner, layer, v, &lists));
             }
             "gload" => {
                 let Some(b) = gb.as_ref() else { continue };
@@ -510,7 +585,46 @@ fn step(cx: &mut Ctx, w: &mut World, op: &str, t: &[&str]) {
             let now = w.tick();
             w.universe.insert(id);
             let had = w.live.contains_key(&id);
+            // state before (for the model's bookkeeping of `insert`)
+            let sent = match cx.model.as_mut() {
+                Some(m) => send_index(m, w, cx.rt),
+                None => false,
+            };
+            let before = if sent { Some((w.extract(cx.rt).0, probe_dirty(cx.rt, &w.index))) } else { None };
             let r = w.index.insert(id, v.clone(), now);
+            if let Some((g0, d0)) = before {
+                w.invalidate();
+                let (g1, e1) = w.extract(cx.rt);
+                let d1 = probe_dirty(cx.rt, &w.index);
+                let ml = w.index.metadata().config.max_layers;
+                for (j, n) in &g1 {
+                    if n.nbrs.len() != n.layer as usize + 1 || n.layer >= ml {
+                        cx.oracle_fail("node-shape", "a node does not have layer + 1 neighbour lists / a layer below max_layers", "NodeOk", &format!("node {j}: layer {} lists {}", n.layer, n.nbrs.len()), None);
+                    }
+                }
+                let m = cx.model.as_mut().unwrap();
+                for (j, n) in &g1 {
+                    if *j != id && (g0.get(j) != Some(n) || (d1.contains(j) && !d0.contains(j))) {
+                        m.ask(&format!("edit {j} {} {}", n.layer, lists_str(&n.nbrs)));
+                    }
+                }
+                let valid = v.len() == w.cfg.dim && v.iter().all(|x| x.is_finite());
+                let (nl, nlists) = match (r.is_ok(), g1.get(&id)) {
+                    (true, Some(n)) => (n.layer, lists_str(&n.nbrs)),
+                    _ => (0, "-".to_string()),
+                };
+                let pick = e1.unwrap_or((0, 0));
+                let ans = m.ask(&format!("insert {id} {nl} {nlists} {} {} {}", pick.0, pick.1, valid as u8));
+                let imp = format!("{} {}", r.is_ok(), real_state(w, cx.rt, true));
+                if cx.report {
+                    cx.rep.model_compared += 1;
+                    cx.rep.hit("model:insert");
+                }
+                if ans != imp {
+                    cx.disagree("insert", &ans, &imp, None);
+                }
+                w.dumped = false;
+            }
             let expect_ok = !had && v.len() == w.cfg.dim && v.iter().all(|x| x.is_finite());
             match (&r, expect_ok) {
                 (Ok(()), true) => {
@@ -532,7 +646,25 @@ fn step(cx: &mut Ctx, w: &mut World, op: &str, t: &[&str]) {
             let now = w.tick();
             w.universe.insert(id);
             let had = w.live.remove(&id).is_some();
+            let sent = match cx.model.as_mut() {
+                Some(m) => send_index(m, w, cx.rt),
+                None => false,
+            };
             let r = w.index.remove(id, now);
+            if sent {
+                w.invalidate();
+                let imp = format!("{r} {}", real_state(w, cx.rt, !w.cfg.reconnect));
+                let pick = w.extract(cx.rt).1.unwrap_or((0, 0));
+                let ans = cx.model.as_mut().unwrap().ask(&format!("remove {id} {} {} {}", pick.0, pick.1, w.cfg.reconnect as u8));
+                if cx.report {
+                    cx.rep.model_compared += 1;
+                    cx.rep.hit("model:remove");
+                }
+                if ans != imp {
+                    cx.disagree("remove", &ans, &imp, None);
+                }
+                w.dumped = false;
+            }
             if r != had {
                 cx.oracle_fail("remove-result", "remove's return value against the live set", &had.to_string(), &r.to_string(), None);
             }
@@ -543,18 +675,30 @@ fn step(cx: &mut Ctx, w: &mut World, op: &str, t: &[&str]) {
         }
         "flush" => {
             ensure_reindexed(cx, w);
+            let sent = pre_flush(cx, w);
             match w.flush_complete(cx.rt) {
                 Ok(ws) => {
+                    w.dumped = false;
+                    compare_writes(cx, sent, &ws);
                     check_write_order(cx, &ws);
-                    // purge bumps the version; the graph is unchanged but the entry probe may differ in route
+                    // after a complete, quiescent flush the durable objects ARE the in-memory index
+                    let bad = crate::window::stale_blobs(w, cx.rt);
+                    if !bad.is_empty() {
+                        cx.oracle_fail("flush-stale-blob", "after a complete flush, load_all of the durable objects differs from the in-memory index", "same ids, current vectors, same node lists", &bad.join(" | "), None);
+                    }
                 }
                 Err(e) => cx.oracle_fail("flush-error", "flush failed on an in-memory store", "ok", &e, None),
             }
         }
         "reload" => {
             ensure_reindexed(cx, w);
+            let sent = pre_flush(cx, w);
             match w.flush_complete(cx.rt) {
-                Ok(ws) => check_write_order(cx, &ws),
+                Ok(ws) => {
+                    w.dumped = false;
+                    compare_writes(cx, sent, &ws);
+                    check_write_order(cx, &ws)
+                }
                 Err(e) => {
                     cx.oracle_fail("flush-error", "flush failed on an in-memory store", "ok", &e, None);
                     return;
@@ -583,6 +727,7 @@ fn step(cx: &mut Ctx, w: &mut World, op: &str, t: &[&str]) {
             ensure_reindexed(cx, w);
             let Ok(cut) = t[1].parse::<usize>() else { return };
             let now = w.tick();
+            let sent = pre_flush(cx, w);
             let ws = match flush_record(cx.rt, &w.index, now) {
                 Ok(ws) => ws,
                 Err(e) => {
@@ -590,6 +735,8 @@ fn step(cx: &mut Ctx, w: &mut World, op: &str, t: &[&str]) {
                     return;
                 }
             };
+            w.dumped = false;
+            compare_writes(cx, sent, &ws);
             check_write_order(cx, &ws);
             let cut = cut % (ws.len() + 1);
             if cx.report {
@@ -610,9 +757,191 @@ fn step(cx: &mut Ctx, w: &mut World, op: &str, t: &[&str]) {
                 Err(e) => cx.oracle_fail("load-error", "load_all failed on the state left by an interrupted flush", "ok", &format!("cut={cut} of {:?}: {e}", ws.iter().map(|x| x.tag()).collect::<Vec<_>>()), None),
             }
         }
+        "flushw" | "crashw" | "flushl" => window_op(cx, w, t),
         "reindex" => ensure_reindexed(cx, w),
         "q" | "qb" | "qx" => query(cx, w, op, t),
         _ => {}
+    }
+}
+
+/// canonical text of the durable objects (the driver's `durable` answer)
+pub fn durable_string(d: &Durable, dim: usize) -> String {
+    let ids = match d.id_set() {
+        Some(s) => csv(&s.into_iter().collect::<Vec<_>>()),
+        None => "none".into(),
+    };
+    let meta = match d.meta_blob() {
+        Some(mb) => format!("{},{},{},{},{},{}", mb.entry_point.0, mb.entry_point.1, mb.metadata.stats.version, mb.metadata.stats.max_layer, mb.metadata.config.max_layers, csv(&mb.removed_nodes)),
+        None => "none".into(),
+    };
+    let blobs: Vec<String> = d
+        .nodes
+        .iter()
+        .filter_map(|(k, b)| {
+            let n: HnswNode = cbor2::from_reader(&b[..]).ok()?;
+            let fin = n.vector.iter().all(|x| x.is_finite()) && n.neighbors.iter().flatten().all(|(_, x)| x.is_finite());
+            let lists: Vec<Vec<u64>> = n.neighbors.iter().map(|l| l.iter().map(|(i, _)| *i).collect()).collect();
+            Some(format!("{k}:{}:{}:{}:{}:{}", n.id, n.layer, (n.vector.len() == dim) as u8, fin as u8, lists_str(&lists)))
+        })
+        .collect();
+    format!("ids={ids} meta={meta} blobs={}", if blobs.is_empty() { "-".to_string() } else { blobs.join("|") })
+}
+
+/// `flushw` / `crashw`: a flush whose write callbacks mutate the index (see window.rs)
+fn window_op(cx: &mut Ctx, w: &mut World, t: &[&str]) {
+    use crate::window::*;
+    ensure_reindexed(cx, w);
+    let crash = t[0] == "crashw";
+    let (cut, hooks_s) = if crash { (t.get(1).and_then(|c| c.parse::<usize>().ok()), t.get(2)) } else { (None, t.get(1)) };
+    if crash && cut.is_none() {
+        return;
+    }
+    let Some(hooks) = hooks_s.and_then(|s| parse_hooks(s)) else { return };
+    let legacy = t[0] == "flushl";
+    let mut model_on = false;
+    if !crash
+        && !legacy
+        && let Some(m) = cx.model.as_mut()
+        && send_index(m, w, cx.rt)
+        && send_durable(m, &w.durable, w.cfg.dim)
+    {
+        m.ask("capture");
+        model_on = true;
+    }
+    let run = match if legacy { flush_legacy(w, hooks) } else { flush_windowed(w, hooks) } {
+        Ok(r) => r,
+        Err(e) => {
+            cx.oracle_fail("flush-error", "windowed flush failed on an in-memory store", "ok", &e, None);
+            return;
+        }
+    };
+    w.invalidate();
+    let ws: Vec<W> = run.evs.iter().filter_map(|e| if let Ev::Write(x) = e { Some(x.clone()) } else { None }).collect();
+    if !legacy {
+        check_write_order(cx, &ws);
+    }
+    let cut = cut.map(|c| c % (ws.len() + 1));
+    let mut written = 0usize;
+    let mut mutated: BTreeSet<u64> = BTreeSet::new();
+    for ev in &run.evs {
+        match ev {
+            Ev::Write(wr) => {
+                if cut.is_none_or(|c| written < c) {
+                    w.durable.apply(wr);
+                    if let W::Meta(b) = wr {
+                        w.entry_fallback = Some(b.clone());
+                    }
+                }
+                written += 1;
+                if model_on {
+                    cx.model.as_mut().unwrap().ask("wwrite");
+                }
+            }
+            Ev::Mut { id, vec, ok, cmds, expect } => {
+                if cx.report {
+                    cx.rep.hit(if vec.is_some() { "window:insert" } else { "window:remove" });
+                }
+                let had = w.live.contains_key(id);
+                let want_ok = match vec {
+                    None => had,
+                    Some(v) => !had && v.len() == w.cfg.dim && v.iter().all(|x| x.is_finite()),
+                };
+                if *ok != want_ok {
+                    cx.oracle_fail("window-mutation-result", "a mutation inside the flush window was accepted/rejected against the live set", &want_ok.to_string(), &ok.to_string(), None);
+                }
+                if *ok {
+                    mutated.insert(*id);
+                    match vec {
+                        None => {
+                            w.live.remove(id);
+                        }
+                        Some(v) => {
+                            w.live.insert(*id, v.iter().map(|x| x.to_f32()).collect());
+                        }
+                    }
+                }
+                if model_on {
+                    let m = cx.model.as_mut().unwrap();
+                    let mut ans = String::new();
+                    for c in cmds {
+                        ans = m.ask(c);
+                    }
+                    if cx.report {
+                        cx.rep.model_compared += 1;
+                    }
+                    if &ans != expect {
+                        cx.disagree("window-mutation", &ans, expect, None);
+                    }
+                }
+            }
+        }
+    }
+    if crash {
+        if cx.report {
+            cx.rep.hit("window:crash");
+        }
+        w.touched.extend(mutated);
+        let d = w.durable.clone();
+        match load(cx.rt, &d) {
+            Ok(ix) => {
+                w.index = ix;
+                w.entry_fallback = d.meta.clone();
+                w.loaded_mode = true;
+                w.invalidate();
+                check_loaded(cx, w, &d);
+            }
+            Err(e) => cx.oracle_fail("load-error", "load_all failed on the state left by an interrupted windowed flush", "ok", &e, None),
+        }
+        return;
+    }
+    if cx.report {
+        cx.rep.hit(if legacy { "window:legacy-api" } else if run.flushed { "window:flush" } else { "window:nothing-pending" });
+    }
+    if run.flushed {
+        w.touched.clear();
+    }
+    w.touched.extend(mutated);
+    if model_on {
+        let imp = real_state(w, cx.rt, !w.cfg.reconnect);
+        let m = cx.model.as_mut().unwrap();
+        let ans = m.ask(if w.cfg.reconnect { "wfinish 0" } else { "wfinish 1" });
+        let dans = m.ask("durable");
+        if cx.report {
+            cx.rep.model_compared += 2;
+            cx.rep.hit("model:window");
+        }
+        if ans != imp {
+            cx.disagree("window-commit", &ans, &imp, None);
+        }
+        let dimp = durable_string(&w.durable, w.cfg.dim);
+        if dans != dimp {
+            cx.disagree("window-durable", &dans, &dimp, None);
+        }
+        w.dumped = false;
+    }
+    check_ids(cx, w, "after a windowed flush");
+}
+
+/// the model's `wrapperWrites` on the state before the flush vs the writes the real flush + purge performed
+fn pre_flush(cx: &mut Ctx, w: &mut World) -> bool {
+    match cx.model.as_mut() {
+        Some(m) => send_index(m, w, cx.rt),
+        None => false,
+    }
+}
+
+fn compare_writes(cx: &mut Ctx, sent: bool, ws: &[W]) {
+    if !sent {
+        return;
+    }
+    let imp = if ws.is_empty() { "-".to_string() } else { ws.iter().map(|x| x.tag()).collect::<Vec<_>>().join(",") };
+    let ans = cx.model.as_mut().unwrap().ask("writes");
+    if cx.report {
+        cx.rep.model_compared += 1;
+        cx.rep.hit("model:writes");
+    }
+    if ans != imp {
+        cx.disagree("flush-writes", &ans, &imp, None);
     }
 }
 
@@ -634,7 +963,7 @@ fn check_write_order(cx: &mut Ctx, ws: &[W]) {
 
 /// `LoadedInv`, checked on the graph extracted from the loaded index against the durable objects
 /// (independent of the model), then the model's `load` prediction.
-fn check_loaded(cx: &mut Ctx, w: &mut World, d: &Durable) {
+pub(crate) fn check_loaded(cx: &mut Ctx, w: &mut World, d: &Durable) {
     let (g, e) = w.extract(cx.rt);
     let Some(dur_ids) = d.id_set() else { return };
     let missing: BTreeSet<u64> = dur_ids.iter().copied().filter(|i| !d.nodes.contains_key(i)).collect();
@@ -684,14 +1013,173 @@ fn check_loaded(cx: &mut Ctx, w: &mut World, d: &Durable) {
     if cx.report {
         cx.rep.hit(if missing.is_empty() { "load:complete" } else { "load:missing-blobs" });
     }
+    if !w.explicit && !missing.is_empty() {
+        // load_prefix_hnsw: with the order nodes -> ids -> metadata -> purge no cut of the index's own flushes
+        // leaves the ids object naming an id without a blob
+        cx.oracle_fail("flush-left-missing-blob", "an interrupted flush left an id in the ids object without its node blob", "no missing blob", &format!("{missing:?}"), None);
+    }
     if !bad.is_empty() {
         cx.oracle_fail("loaded-inv", "the loaded index violates LoadedInv", "ids = durable ids minus missing = node map keys; no edge to a dropped id; entry loaded; nodes = blobs", &bad.join(" | "), None);
     }
     check_load_model(cx, d, Some(w));
 }
 
-/// model's `load` on the same durable objects (filled in by the persistence part of the model)
-fn check_load_model(_cx: &mut Ctx, _d: &Durable, _w: Option<&mut World>) {}
+/// the real dirty set (ids that the next flush would write), observed without any effect on the
+/// index: the ids callback refuses, so the snapshot is never committed
+pub fn probe_dirty(_rt: &Runtime, index: &HnswIndex) -> Vec<u64> {
+    let log: Rc<RefCell<Vec<u64>>> = Rc::new(RefCell::new(vec![]));
+    let l1 = log.clone();
+    let _ = poll_now(index.flush_with(
+        0,
+        move |id, _| {
+            l1.borrow_mut().push(id);
+            std::future::ready(Ok::<bool, BoxError>(true))
+        },
+        |_| std::future::ready(Err::<(), BoxError>("probe".into())),
+        |_| std::future::ready(Ok::<(), BoxError>(())),
+    ));
+    let mut v = log.take();
+    v.sort();
+    v
+}
+
+pub fn csv(v: &[u64]) -> String {
+    if v.is_empty() { "-".into() } else { join(v, ",") }
+}
+
+/// the real index in the driver's `<state>` syntax
+pub fn real_state(w: &mut World, rt: &Runtime, with_lists: bool) -> String {
+    let (g, e) = w.extract(rt);
+    let dirty = probe_dirty(rt, &w.index);
+    state_string(&w.index, &g, e, &dirty, with_lists)
+}
+
+/// puts the real index into the driver (graph, entry point, id set, tombstones, dirty set, versions)
+pub fn send_index(m: &mut ModelProc, w: &mut World, rt: &Runtime) -> bool {
+    let (g, e) = w.extract(rt);
+    let Some(e) = e else { return false };
+    m.ask("reset");
+    for (id, n) in &g {
+        m.ask(&format!("node {id} {} {}", n.layer, lists_str(&n.nbrs)));
+    }
+    m.ask(&format!("entry {} {}", e.0, e.1));
+    let mut ids = w.index.node_ids();
+    ids.sort();
+    m.ask(&format!("ids {}", csv(&ids)));
+    m.ask(&format!("removed {}", csv(&w.index.removed_node_ids())));
+    m.ask(&format!("dirty {}", csv(&probe_dirty(rt, &w.index))));
+    let st = w.index.stats();
+    let pending = w.index.has_pending_metadata_flush() as u64;
+    m.ask(&format!("ver {} {} {} {}", st.version, st.version - pending, st.max_layer, w.index.metadata().config.max_layers));
+    w.dumped = true;
+    true
+}
+
+pub fn send_durable(m: &mut ModelProc, d: &Durable, dim: usize) -> bool {
+    m.ask("dreset");
+    for (key, b) in &d.nodes {
+        let Ok(n) = cbor2::from_reader::<HnswNode, _>(&b[..]) else { return false };
+        let fin = n.vector.iter().all(|x| x.is_finite()) && n.neighbors.iter().flatten().all(|(_, x)| x.is_finite());
+        let lists: Vec<Vec<u64>> = n.neighbors.iter().map(|l| l.iter().map(|(i, _)| *i).collect()).collect();
+        m.ask(&format!("dput {key} {} {} {} {} {}", n.id, n.layer, (n.vector.len() == dim) as u8, fin as u8, lists_str(&lists)));
+    }
+    match d.id_set() {
+        Some(ids) => m.ask(&format!("dids {}", csv(&ids.into_iter().collect::<Vec<_>>()))),
+        None => m.ask("dids none"),
+    };
+    match d.meta_blob() {
+        Some(mb) => m.ask(&format!(
+            "dmeta {} {} {} {} {} {}",
+            mb.entry_point.0,
+            mb.entry_point.1,
+            mb.metadata.stats.version,
+            mb.metadata.stats.max_layer,
+            mb.metadata.config.max_layers,
+            csv(&mb.removed_nodes)
+        )),
+        None => m.ask("dmeta none"),
+    };
+    true
+}
+
+/// the model's `load` on the same durable objects; `pick` = the entry point the real loader chose
+fn check_load_model(cx: &mut Ctx, d: &Durable, w: Option<&mut World>) {
+    if cx.model.is_none() {
+        return;
+    }
+    let rt = cx.rt;
+    let (imp, dim, pick) = match w {
+        Some(w) => {
+            let s = real_state(w, rt, true);
+            let e = w.extract(rt).1.unwrap_or((0, 0));
+            w.dumped = false;
+            (format!("ok {s}"), w.cfg.dim, e)
+        }
+        None => ("err:load".to_string(), d.meta_blob().map(|m| m.metadata.config.dimension).unwrap_or(0), (0, 0)),
+    };
+    let m = cx.model.as_mut().unwrap();
+    if !send_durable(m, d, dim) {
+        return;
+    }
+    let ans = m.ask(&format!("load {} {}", pick.0, pick.1));
+    if cx.report {
+        cx.rep.model_compared += 1;
+        cx.rep.hit(if imp.starts_with("ok") { "model:load-ok" } else { "model:load-err" });
+    }
+    if ans != imp {
+        cx.disagree("load", &ans, &imp, None);
+    }
+}
+
+/// the soundness part of the property for one answer, against the harness's own copy of the vectors
+pub(crate) fn soundness(metric: char, k: usize, q: &[f32], truth: &BTreeMap<u64, Vec<f32>>, r: &[(u64, f32)]) -> Vec<String> {
+    let mut bad: Vec<String> = vec![];
+    if r.len() > k {
+        bad.push(format!("{} results for k={k}", r.len()));
+    }
+    let mut seen = BTreeSet::new();
+    for (i, _) in r {
+        if !seen.insert(*i) {
+            bad.push(format!("id {i} returned twice"));
+        }
+        if !truth.contains_key(i) {
+            bad.push(format!("id {i} is not in the index"));
+        }
+    }
+    for p in r.windows(2) {
+        if !(p[0].1 <= p[1].1) {
+            bad.push(format!("distances decrease: {} then {}", p[0].1, p[1].1));
+        }
+    }
+    for (i, dd) in r {
+        if let Some(v) = truth.get(i) {
+            let (want, scale) = oracle_dist(metric, q, v);
+            if !((*dd as f64 - want).abs() <= dist_tolerance(scale)) {
+                bad.push(format!("id {i}: reported distance {dd} but the metric is {want}"));
+            }
+        }
+    }
+    if !truth.is_empty() && k > 0 && r.is_empty() {
+        bad.push("empty answer on a non-empty index".into());
+    }
+    bad
+}
+
+pub(crate) fn soundness_key(bad: &[String]) -> &'static str {
+    if bad[0].contains("not in the index") {
+        "dead-id"
+    } else if bad[0].contains("twice") {
+        "duplicate"
+    } else if bad[0].contains("decrease") {
+        "order"
+    } else if bad[0].contains("reported") {
+        "distance"
+    } else if bad[0].contains("empty") {
+        "empty"
+    } else {
+        "too-many"
+    }
+}
 
 fn query(cx: &mut Ctx, w: &mut World, op: &str, t: &[&str]) {
     if t.len() < 3 {
@@ -766,42 +1254,14 @@ fn query(cx: &mut Ctx, w: &mut World, op: &str, t: &[&str]) {
                 cx.oracle_fail("search-error", "a valid query failed", "Ok(..)", &err_str(e), Some(gc));
             }
             Ok(r) => {
-                let mut bad: Vec<String> = vec![];
-                if r.len() > k {
-                    bad.push(format!("{} results for k={k}", r.len()));
-                }
-                let mut seen = BTreeSet::new();
-                for (i, _) in r {
-                    if !seen.insert(*i) {
-                        bad.push(format!("id {i} returned twice"));
-                    }
-                    if !truth.contains_key(i) {
-                        bad.push(format!("id {i} is not in the index"));
-                    }
-                }
-                for p in r.windows(2) {
-                    if !(p[0].1 <= p[1].1) {
-                        bad.push(format!("distances decrease: {} then {}", p[0].1, p[1].1));
-                    }
-                }
-                for (i, dd) in r {
-                    if let Some(v) = truth.get(i) {
-                        let (want, scale) = oracle_dist(w.cfg.metric, &qf32, v);
-                        if !((*dd as f64 - want).abs() <= dist_tolerance(scale)) {
-                            bad.push(format!("id {i}: reported distance {dd} but the metric is {want}"));
-                        }
-                    }
-                }
-                if !truth.is_empty() && k > 0 && r.is_empty() {
-                    bad.push("empty answer on a non-empty index".into());
-                }
+                let bad = soundness(w.cfg.metric, k, &qf32, &truth, r);
                 if !bad.is_empty() {
                     let gc = w.export_graph_case(cx.rt, op);
-                    let key = if bad[0].contains("not in the index") { "dead-id" } else if bad[0].contains("twice") { "duplicate" } else if bad[0].contains("decrease") { "order" } else if bad[0].contains("reported") { "distance" } else if bad[0].contains("empty") { "empty" } else { "too-many" };
+                    let key = soundness_key(&bad);
                     cx.oracle_fail(&format!("search-{key}"), "search result violates the soundness part of the property", "<= k distinct live ids, non-decreasing true distances", &format!("{} ; result {:?}", bad.join(" | "), r), Some(gc));
                 }
                 // recall of this answer against brute force (measured only)
-                if cx.report && !truth.is_empty() {
+                if cx.report && !truth.is_empty() && k > 0 {
                     let kk = k.min(truth.len());
                     let mut all: Vec<(f64, u64)> = truth.iter().map(|(i, v)| (oracle_dist(w.cfg.metric, &qf32, v).0, *i)).collect();
                     all.sort_by(|a, b| a.partial_cmp(b).unwrap());
